@@ -431,6 +431,14 @@ def pytask_collect_node(  # noqa: C901, PLR0912
             node.path, session.config["check_casing_of_paths"]
         )
 
+    elif isinstance(node, PPathNode) and not isinstance(node.path, UPath):
+        # Absolute local paths are normalized like paths given without a node, otherwise
+        # ``a/../b`` and ``b`` are two different nodes.
+        node.path = Path(os.path.normpath(node.path))
+        _raise_error_if_casing_of_path_is_wrong(
+            node.path, session.config["check_casing_of_paths"]
+        )
+
     if isinstance(node, PPathNode) and (
         not node.name or node.name == node.path.as_posix()
     ):
